@@ -48,7 +48,7 @@ def conv(v, t):
 class Env:
     """variable model: name -> dict(kind=int|bool|enum|str|raw, type=(bits,signed), cap, term, values...)"""
 
-    def __init__(self, decls, unsafe_index=False, char_signed=True):
+    def __init__(self, decls, unsafe_index=False, char_signed=False):
         self.decls = decls
         self.unsafe_index = unsafe_index
         self.char_signed = char_signed
